@@ -14,10 +14,12 @@ DT = 60
 
 
 class StubGrid:
-    """ll2xy of an affine lon/lat grid: X = (lon − 5)·8, Y = (lat − 60)·16."""
+    """ll2xy of an affine, *rotated* lon/lat grid (X and Y each depend on both coordinates):
+    X = 8·(lon − 5) + 4·(lat − 60), Y = −2·(lon − 5) + 16·(lat − 60)."""
 
     def ll2xy(self, lon, lat):
-        return (np.asarray(lon) - 5.0) * 8.0, (np.asarray(lat) - 60.0) * 16.0
+        lo, la = np.asarray(lon, float) - 5.0, np.asarray(lat, float) - 60.0
+        return 8.0 * lo + 4.0 * la, -2.0 * lo + 16.0 * la
 
 
 def gen_case(r, k, thorough):
@@ -53,6 +55,11 @@ def gen_case(r, k, thorough):
             if lonlat:
                 row["lon"] = 5.0 + r.randint(16, 80) / 64.0
                 row["lat"] = 60.0 + r.randint(16, 64) / 128.0
+                if rows and r.rand() < 0.5:      # rows on one meridian or one parallel (a lattice of release points)
+                    other = rows[r.randint(len(rows))]
+                    if "lon" in other:
+                        key = "lon" if r.rand() < 0.5 else "lat"
+                        row[key] = other[key]
             else:
                 row["X"] = r.randint(32, 160) / 16.0
                 row["Y"] = r.randint(32, 128) / 16.0
@@ -131,7 +138,8 @@ def request(c):
     for r in c["rows"]:
         cols = {}
         if c["lonlat"]:
-            cols["X"] = val_s((r["lon"] - 5.0) * 8.0); cols["Y"] = val_s((r["lat"] - 60.0) * 16.0)
+            lo, la = r["lon"] - 5.0, r["lat"] - 60.0
+            cols["X"] = val_s(8.0 * lo + 4.0 * la); cols["Y"] = val_s(-2.0 * lo + 16.0 * la)
         else:
             cols["X"] = val_s(r["X"]); cols["Y"] = val_s(r["Y"])
         cols["Z"] = val_s(r["Z"])
